@@ -175,9 +175,13 @@ type c47Shape struct {
 }
 
 func c47BuildState(sh c47Shape) (*c47State, error) {
+	return c47Assemble(sh.scheme, c47GenAccounts(sh))
+}
+
+// c47GenAccounts generates the accounts of a target state (hash, nonce, balance, code,
+// storage template); the derived fields are filled by c47Assemble.
+func c47GenAccounts(sh c47Shape) []*c47Account {
 	r := &c47Rand{sh.seed | 1}
-	s := &c47State{scheme: sh.scheme, byHash: map[common.Hash]*c47Account{}, codes: map[common.Hash][]byte{},
-		stTries: map[common.Hash]*trie.Trie{}, stElems: map[common.Hash][]*kv{}}
 	var tpls []*c47Storage
 	for _, n := range sh.stSizes {
 		tpls = append(tpls, c47GenStorage(r, n, sh.hostile))
@@ -191,21 +195,37 @@ func c47BuildState(sh c47Shape) (*c47State, error) {
 		codePool = append(codePool, c)
 	}
 	keys := c47GenKeys(r, sh.nAccounts, sh.hostile, 1)
-	akv := map[string][]byte{}
+	var accts []*c47Account
 	for _, k := range keys {
 		a := &c47Account{hash: k, nonce: r.next() % 100, balance: new(big.Int).SetUint64(r.next() >> uint(r.intn(64)))}
 		if r.intn(100) < sh.codeShare {
 			a.code = codePool[r.intn(len(codePool))]
 		}
+		// the all-zero owner denotes the account trie itself in the node database, so the
+		// account with hash 0x00..00 cannot carry a storage trie
+		if len(tpls) > 0 && r.intn(100) < sh.stShare && k != (common.Hash{}) {
+			a.st = tpls[r.intn(len(tpls))]
+		}
+		accts = append(accts, a)
+	}
+	return accts
+}
+
+// c47Assemble builds the model (kit/reftrie + kit/refrlp) and the geth tries (for the
+// peers) of the state made of the given accounts (ascending by hash; hash, nonce,
+// balance, code and st set).
+func c47Assemble(scheme string, accts []*c47Account) (*c47State, error) {
+	s := &c47State{scheme: scheme, byHash: map[common.Hash]*c47Account{}, codes: map[common.Hash][]byte{},
+		stTries: map[common.Hash]*trie.Trie{}, stElems: map[common.Hash][]*kv{}}
+	akv := map[string][]byte{}
+	for _, a := range accts {
+		k := a.hash
 		a.codeHash = reftrie.Keccak256(a.code)
 		if len(a.code) > 0 {
 			s.codes[a.codeHash] = a.code
 		}
 		a.stRoot = common.Hash(reftrie.EmptyRoot)
-		// the all-zero owner denotes the account trie itself in the node database, so the
-		// account with hash 0x00..00 cannot carry a storage trie
-		if len(tpls) > 0 && r.intn(100) < sh.stShare && k != (common.Hash{}) {
-			a.st = tpls[r.intn(len(tpls))]
+		if a.st != nil {
 			a.stRoot = a.st.ref.Root
 			s.slots += len(a.st.keys)
 		}
@@ -226,7 +246,7 @@ func c47BuildState(sh c47Shape) (*c47State, error) {
 	s.root = s.ref.Root
 
 	// geth side (as makeAccountTrieWithStorage does)
-	db := triedb.NewDatabase(rawdb.NewMemoryDatabase(), newDbConfig(sh.scheme))
+	db := triedb.NewDatabase(rawdb.NewMemoryDatabase(), newDbConfig(scheme))
 	accTrie := trie.NewEmpty(db)
 	nodes := trienode.NewMergedNodeSet()
 	for _, a := range s.accts {
